@@ -8,6 +8,7 @@ from lib import recipe
 FORMULAS = {
     'C01': (['FailOwn', 'ErrCbOnce', 'SentInOrder', 'FedOrFailed', 'LenRight', 'HandlerAlive'], []),
     'C07': (['Sentinels', 'SentinelsOnlyLeaving', 'HandlerAlive'], ['NoFeedAfterStop']),
+    'C08': (['Sentinels', 'SentinelsOnlyLeaving', 'HandlerAlive'], ['NoFeedAfterStop', 'StopSeenAtOnce']),
 }
 ALLK = '{"apply", "map", "imap", "imapu"}'
 DEV = 'FALSE'      # DevJobZero: the tree's behaviour
@@ -28,7 +29,7 @@ def run(ctx, pid):
 
     def t_wide():
         return recipe.tlc_only('feed-wide', 'Feed', constants=wide, invariants=inv, properties=props,
-                               workers=6, timeout=2400, heap='6g')
+                               workers=6, timeout=1500, heap='6g', budget_ok=True)
 
     def t_small():
         return recipe.tlc_only('feed-small', 'Feed', constants=small, invariants=inv, properties=props,
@@ -46,7 +47,7 @@ def run(ctx, pid):
 
     with ThreadPoolExecutor(4) as ex:
         fw, fs, fk = ex.submit(t_wide), ex.submit(t_small), ex.submit(t_walks)
-        fl = ex.submit(t_live) if pid == 'C07' else None
+        fl = ex.submit(t_live) if pid in ('C07', 'C08') else None
         recipe.account(ctx, 'feed-wide', 'Feed', wide, fw.result())
         g = recipe.account(ctx, 'feed-small', 'Feed', small, fs.result(), emit=True)
         ctx.sample({'unit': 'feed-small', 'constants': small, 'states': len(g.state), 'edges': g.n_edges})
